@@ -7,6 +7,7 @@ recorded through the engine's own `sim.control.on_event` seam + the model's list
 
   ref           first run in a fresh interpreter with PYTHONHASHSEED=0
   repeat        the same build+run once more in that interpreter                                         (a)
+  after-sibling a fresh interpreter that first runs the same model with the same structure and other seeds     (b)
   after-others  ... once more after a seeded selection of other zoo models was built and run there        (b)
                 (advances the process-global event counter, leaves `random`/`numpy.random` dirty; the model
                 re-seeds with its own user seed the way a user does: random.seed(seed) before building)
@@ -374,10 +375,6 @@ def _program(sc) -> list:
     if plan.get("repeat"):
         jobs0.append(subj)
         marks.append(("repeat", len(jobs0) - 1))
-    if plan.get("sibling"):
-        jobs0.append(_sibling(subj))
-        jobs0.append(subj)
-        marks.append(("after-sibling", len(jobs0) - 1))
     if plan.get("after_others") and others:
         jobs0.extend(others)
         jobs0.append(subj)
@@ -390,6 +387,10 @@ def _program(sc) -> list:
         jobs0.append({**subj, "numpy_seed": False})
         marks.append(("obs-random-seed-only", len(jobs0) - 1))
     prog = [{"hs": 0, "how": "fork", "jobs": jobs0, "marks": marks}]
+    if plan.get("sibling"):
+        # its own fresh interpreter: the sibling (same model, same structure, other seeds) must run *before the subject's first
+        # run there* — state memoised per structure by the subject's own first run would hide a leak from the sibling
+        prog.append({"hs": 0, "how": "fork", "jobs": [_sibling(subj), subj], "marks": [("after-sibling", 1)]})
     for h in plan.get("hs", []):
         prog.append({"hs": h, "how": "fork", "jobs": [subj], "marks": [("hashseed", 0)]})
     if plan.get("fresh"):
